@@ -10,19 +10,17 @@ def mcs(tier):
     out = []
     for be in ("memory", "file"):
         c = dict(Backend=be, NClients=1, FailStores=False, Janitor=True, UseClock=True, Weight=100, Blocking=False,
-                 MaxHandles=0)
+                 MaxHandles=0, NKeys=3, ShardOf="<- Shard112", MaxChunks=2, MaxObj=4, InitLimit=3)
         if tier == "quick":
             out.append(lambda be=be, c=c: cachefam.mc("c13_%s_3keys" % be, INV, timeout=300, constraint="ClockBound6",
-                                                      NKeys=3, ShardOf="<- Shard112", MaxVer=1, MaxChunks=2, MaxObj=4,
-                                                      InitLimit=3, Limits={2, 3}, **c))
+                                                      MaxVer=1, Limits={3}, UpdVals={False}, Deletes=False, **c))
         else:
-            out.append(lambda be=be, c=c: cachefam.mc("c13_%s_3keys" % be, INV, timeout=1200, constraint="ClockBound",
-                                                      NKeys=3, ShardOf="<- Shard112", MaxVer=2, MaxChunks=2, MaxObj=4,
-                                                      InitLimit=3, Limits={2, 3}, coverage=True, **c))
-            out.append(lambda be=be, c=c: cachefam.mc("c13_%s_2clients_window" % be, INV, timeout=1200,
-                                                      constraint="ClockBound6", NKeys=2, ShardOf="<- Shard12", MaxVer=2,
-                                                      MaxChunks=2, MaxObj=5, InitLimit=3, Limits={3},
-                                                      **dict(c, NClients=2)))
+            out.append(lambda be=be, c=c: cachefam.mc("c13_%s_3keys_limits" % be, INV, timeout=1500, constraint="ClockBound6",
+                                                      MaxVer=1, Limits={2, 3}, UpdVals={False}, Deletes=True,
+                                                      coverage=True, **c))
+            out.append(lambda be=be, c=c: cachefam.mc("c13_%s_2clients_window" % be, INV, timeout=1500,
+                                                      constraint="ClockBound6", MaxVer=2, Limits={3}, UpdVals={False},
+                                                      Deletes=False, **dict(c, NClients=2, NKeys=2, ShardOf="<- Shard12", MaxObj=5)))
     return out
 
 
